@@ -221,11 +221,12 @@ impl InputState {
         let s: String = self.input.iter().collect();
         if let Some(s) = s.strip_prefix("load ") {
             let file_comp = FilenameCompleter::new();
-            let pos = if self.input_index > 5 {
-                self.input_index - 5
-            } else {
-                0
-            };
+            // The completer expects a byte offset, `input_index` counts characters
+            let pos = s
+                .char_indices()
+                .nth(self.input_index.saturating_sub(5))
+                .map(|(byte_offset, _)| byte_offset)
+                .unwrap_or_else(|| s.len());
             let comps = file_comp.complete_path(s, pos);
             match comps {
                 Ok((_, comps)) => {
